@@ -69,7 +69,8 @@ def make_overlay(ctx):
 
 
 def behaviours_from(r):
-    return [{"cfg": val["cfg"], "hist": val["hist"]} for tag, val in r["printed"] if tag == "BEH"]
+    return [{"cfg": val["cfg"], "hist": val["hist"], "viol": val.get("viol", [])}
+            for tag, val in r["printed"] if tag == "BEH"]
 
 
 def shape(b):
